@@ -65,6 +65,7 @@ KNOWN_METHODS = {
 
 
 REF_SIGNATURES = {}        # fq -> parameter names of the reference tree (set by sa/driver.py)
+REF_RAISES = None          # fq -> number of raise statements in the reference tree (same)
 
 
 def known_external(fname):
@@ -310,9 +311,23 @@ class Interp:
         if isinstance(s, ast.Raise):
             exc = self._eval(s.exc, st, act) if s.exc is not None else CONST_NONE
             self._emit("raise", st, s, act, exc=exc)
+            if REF_RAISES is not None:
+                # an exception exit the reference tree's function of this name does not have (a
+                # clearer error for a malformed argument, an "unreachable" branch): whether its
+                # condition can hold for valid input is not established - what is derived about
+                # the functions on the way is not a verdict
+                if self._new_exits(act):
+                    self._opaque(act, "an exception exit that the tree the rules were written "
+                                 "for does not have (whether its condition can hold for valid "
+                                 "input is not established)",
+                                 f"{act.fi.module.path}:{getattr(s, 'lineno', 0)}")
             return None
         if isinstance(s, ast.Assert):
             t = self._eval(s.test, st, act)
+            if REF_RAISES is not None and truth_const(t) is None and self._new_exits(act):
+                self._opaque(act, "an assertion that the tree the rules were written for does not "
+                             "have (whether it can fail for valid input is not established)",
+                             f"{act.fi.module.path}:{getattr(s, 'lineno', 0)}")
             self._emit("assert", st, s, act, test=t, stmt=s)
             if t[0] == "call" and t[1] == "builtins.isinstance" and len(t[2]) == 2 \
                     and t[2][1][0] == "classref" and t[2][0][0] in ("attr", "param"):
@@ -422,7 +437,13 @@ class Interp:
         if tc is False:
             return self._block(s.orelse, st, act) if s.orelse else st
         base_pc = st.pc
-        st_true, st_false = st.fork(c), st.fork(("not", c))
+        # `if c: raise ...` is `assert not c` (and `if c: ... else: raise` is `assert c`): what
+        # survives the guard is an established fact, not a condition of what follows
+        body_raises = self._only_raises(s.body)
+        else_raises = bool(s.orelse) and self._only_raises(s.orelse)
+        st_true = st.fork(("fact", c) if else_raises and not body_raises else c)
+        st_false = st.fork(("fact", ("not", c)) if body_raises and not else_raises
+                           else ("not", c))
         self._narrow_none_test(s.test, st_true, st_false)
         s1 = self._block(s.body, st_true, act)
         s2 = self._block(s.orelse, st_false, act) if s.orelse else st_false
@@ -465,6 +486,17 @@ class Interp:
         else:
             pc = base_pc + (("fact", ("or", (_conj(e1), _conj(e2)))),)
         return _State(env, pc, ov)
+
+    @staticmethod
+    def _only_raises(stmts):
+        """the block ends in `raise` and leaves in no other way"""
+        if not stmts or not isinstance(stmts[-1], ast.Raise):
+            return False
+        for st_ in stmts:
+            for n in ast.walk(st_):
+                if isinstance(n, (ast.Return, ast.Continue, ast.Break, ast.Yield, ast.YieldFrom)):
+                    return False
+        return True
 
     def _assigned_names(self, stmts):
         out = set()
@@ -1072,6 +1104,23 @@ class Interp:
             if rs and all(x is not None for x in rs):
                 return ("tuple", tuple(rs))
         return ("unknown", text)
+
+    @staticmethod
+    def _new_exits(act):
+        """the function has more raise / assert statements than the reference tree's function of
+        that name"""
+        if act.fi.module.name == "nasim.scenarios.loader":
+            return False       # the loader's guards are what C17 / C18 judge, one by one
+        n_now = sum(isinstance(n, (ast.Raise, ast.Assert)) for n in ast.walk(act.fi.node))
+        if n_now <= REF_RAISES.get(act.fi.fq, 0):
+            return False
+        # ... and the module as a whole has more of them (a guard that only moved into a new helper
+        # of the same module is not a new exit)
+        key = "module:" + act.fi.module.path
+        if key in REF_RAISES:
+            m_now = sum(isinstance(n, (ast.Raise, ast.Assert)) for n in ast.walk(act.fi.module.tree))
+            return m_now > REF_RAISES[key]
+        return True
 
     def _opaque(self, act, what, loc):
         """record a construct whose effect is treated as unknown, with the files of every function
